@@ -297,6 +297,46 @@ def run_random_long(ns, res, rng, count):
                               {'text': text, 'policy': policy, 'comment': comment, 'header': header, 'encoding': 'utf-8', 'pieces': lens, 'chunk_size': cs, 'mode': 'bytes'})
 
 
+def run_very_long(ns, res, rng, count):
+    """Physical lines and quoted_rfc records of 1100-6000 characters - longer than any buffer size the reader asks for - delivered in pieces of one to three
+    characters: thousands of successive reads before the line break arrives, at the default and at small chunk sizes."""
+    for n_ in range(count):
+        L = rng.choice([1100, 1500, 2100, 3000, 4200, 6000])
+        body = ''.join(rng.choice(['a', 'b', ' ', ',', 'é', '"x"', '', '€']) for _ in range(L))
+        if n_ % 3 == 2:
+            policy = 'quoted_rfc'
+            text = 'h1,h2\n1,"' + body.replace('"', '').replace(',', ',\n', 3) + '",z\nlast,' + rng.choice(['1', '"q"']) + rng.choice(['', '\n'])
+        else:
+            policy = rng.choice(['simple', 'quoted', 'quoted_rfc'])
+            text = 'h1,h2' + rng.choice(['\n', '\r\n']) + body.replace('"', '') + rng.choice(['\n', '\r\n', '\r']) + 'x,y' + rng.choice(['', '\n'])
+        comment = rng.choice([None, '#'])
+        header = n_ % 2 == 0
+        cfg = (policy, comment, header)
+        whole = observe(ns, PieceText([text]), None, ',', policy, header, comment, 1024)
+        res.evaluations += 1
+        res.nontrivial('verylong', text, cfg)
+        check_against_reference(res, text, cfg, whole)
+        for mode in ('ones', 'twos', 'mixed', 'ones-small-chunk'):
+            if mode == 'ones':
+                lens = [1] * len(text)
+            elif mode == 'twos':
+                lens = [2] * (len(text) // 2) + ([1] if len(text) % 2 else [])
+            else:
+                lens = []
+                left = len(text)
+                while left:
+                    k = min(left, rng.choice([1, 1, 2, 3]) if mode == 'mixed' else 1)
+                    lens.append(k)
+                    left -= k
+            cs = 7 if mode == 'ones-small-chunk' else rng.choice([1024, 1024, 4096, 512])
+            got = observe(ns, PieceText(cut(text, lens)), None, ',', policy, header, comment, cs)
+            res.evaluations += 1
+            res.count('very_long_line_runs')
+            if got != whole:
+                res.violation('chunk-dependence', 'text of %d characters with a %d-character line (%s) delivered in pieces of %s at chunk_size %d -> %r, whole -> %r' % (len(text), L, cfg, mode, cs, str(got)[:300], str(whole)[:300]),
+                              {'text': text, 'policy': policy, 'comment': comment, 'header': header, 'encoding': None, 'pieces': lens, 'chunk_size': cs, 'mode': 'pieces'})
+
+
 def plan(tier, seed):
     k = NSHARDS[tier]
     specs = [{'kind': 'exhaustive', 'k': k, 'i': i} for i in range(k)]
@@ -342,13 +382,14 @@ def run_shard(spec, res):
         run_bytes(ns, res, tier, spec['sample'], spec['policies'])
     elif spec['kind'] == 'long':
         run_random_long(ns, res, rng, spec['n'])
+        run_very_long(ns, res, rng, 6 if tier == 'quick' else 40)
 
 
 def summarize(tier, seed, m):
     return {
-        'rule': 'every text of length <= %d over {a, quote, comma, LF, CR, #, space} x all 2^(n-1) partitions into successive reads (chunk_size n+1) x policies {simple, quoted, quoted_rfc} x comment prefix {none, #} x header {off, on}; length %d with header off (quick tier: 4 of the 6 policy x comment configurations at that length); for each text also chunk_size 1..n on the undivided text; every byte partition of %d multi-byte UTF-8 / latin-1 / BOM samples through a RawIOBase; random longer texts with random partitions and chunk sizes (text and byte level); the same exhaustive differential up to 5 / 6 characters for 7 further dialects (semicolon, space + whitespace policy, space + quoted, monocolumn, multi-character delimiter with quoted_rfc and simple, tab) with single- and multi-character comment prefixes. Each whole read is also compared with the reference reader. distinct_nontrivial = (text, configuration) pairs whose text contains a line break or a quote.' % (FULL_LEN[tier], EXTRA_LEN[tier], len(byte_samples())),
+        'rule': 'every text of length <= %d over {a, quote, comma, LF, CR, #, space} x all 2^(n-1) partitions into successive reads (chunk_size n+1) x policies {simple, quoted, quoted_rfc} x comment prefix {none, #} x header {off, on}; length %d with header off (quick tier: 4 of the 6 policy x comment configurations at that length); for each text also chunk_size 1..n on the undivided text; every byte partition of %d multi-byte UTF-8 / latin-1 / BOM samples through a RawIOBase; random longer texts with random partitions and chunk sizes (text and byte level); lines and quoted_rfc records of 1100-6000 characters delivered one, two or 1-3 characters per read (thousands of reads per line) at chunk sizes 7 / 512 / 1024 / 4096; the same exhaustive differential up to 5 / 6 characters for 7 further dialects (semicolon, space + whitespace policy, space + quoted, monocolumn, multi-character delimiter with quoted_rfc and simple, tab) with single- and multi-character comment prefixes. Each whole read is also compared with the reference reader. distinct_nontrivial = (text, configuration) pairs whose text contains a line break or a quote.' % (FULL_LEN[tier], EXTRA_LEN[tier], len(byte_samples())),
         'exhaustive': True,
-        'required': ['partition_runs', 'byte_partition_runs', 'byte_partition_runs_buffered_reader', 'reference_comparisons', 'chunk_size_runs', 'dialect_partition_runs', 'dialect_reference_comparisons'],
+        'required': ['partition_runs', 'byte_partition_runs', 'byte_partition_runs_buffered_reader', 'reference_comparisons', 'chunk_size_runs', 'dialect_partition_runs', 'dialect_reference_comparisons', 'very_long_line_runs'],
         'assumptions': ['all delivery sequences a stream can produce are covered by enumerating partitions under a large chunk_size (a read(k) request returns min(piece, k)) plus the chunk-size sweep',
                         'rv.model.refcsv.read_text states the line-ending / comment / multi-line / BOM rules'],
     }
